@@ -640,6 +640,41 @@ func c04R10(ic *IC, r *Report) {
 			if stores == 0 {
 				continue
 			}
+			// several appended values: they are all evaluated (copied) before the slice is
+			// modified, since they may be elements of that very slice (append(s[:0], s[1], s[0])):
+			// every element stored into the local vector handed to reflect.Append(s, v...) is a copy
+			cps := copiers(ic)
+			ast.Inspect(fl.Body, func(m ast.Node) bool {
+				c, ok := m.(*ast.CallExpr)
+				if !ok || !isCallTo(info, c, "reflect.Append") || !c.Ellipsis.IsValid() || len(c.Args) != 2 {
+					return true
+				}
+				vec := identOf(c.Args[1])
+				if vec == nil {
+					return true
+				}
+				var alias []string
+				ast.Inspect(fl.Body, func(k ast.Node) bool {
+					as, ok := k.(*ast.AssignStmt)
+					if !ok || len(as.Lhs) != 1 || len(as.Rhs) != 1 {
+						return true
+					}
+					ix, ok := unparen(as.Lhs[0]).(*ast.IndexExpr)
+					if !ok {
+						return true
+					}
+					if id := identOf(ix.X); id == nil || info.ObjectOf(id) != info.ObjectOf(vec) {
+						return true
+					}
+					if !isFreshValue(ic, cps, as.Rhs[0]) {
+						alias = append(alias, types.ExprString(as.Lhs[0])+" = "+types.ExprString(as.Rhs[0])+" at "+ic.pos(as.Pos()))
+					}
+					return true
+				})
+				r.Check(len(alias) == 0, "R04.10", fmt.Sprintf("%s/closure#%d/appended-values-copied-first", name, ci+1), ic.pos(c.Pos()), "the appended values are copies taken before the slice is modified",
+					"the values appended by "+name+" are handed to reflect.Append as they are ("+strings.Join(alias, ", ")+"): when they are elements of the slice being appended to, reflect.Append overwrites them while copying (s = append(s[:0], s[1], s[0]) yields [2 2], compiled Go [2 1])")
+				return true
+			})
 			n++
 			r.Check(len(bad) == 0, "R04.10", fmt.Sprintf("%s/closure#%d/result-from-reflect-append", name, ci+1), ic.pos(fl.Pos()), "the result is produced by reflect.Append / reflect.AppendSlice",
 				"the result of append is stored from "+strings.Join(bad, ", ")+", not from reflect.Append/AppendSlice: the result can share the backing array of the appended operand (append(nil, src...) returning a view of src), so element writes through one slice show in the other")
